@@ -174,7 +174,7 @@ func loadOutcome(c *cannedDB, img *vos.MemFS, conc int, mm bool) (kind, msg, sit
 	steps = r.Steps
 	switch r.Verdict.Kind {
 	case "":
-	case "deadlock", "livelock", "horizon":
+	case "deadlock", "livelock", "hang":
 		return "restore-stuck", "LoadFromDisk does not terminate (" + r.Verdict.Kind + "): " + firstLine(r.Verdict.Msg), r.Verdict.Site, steps
 	default:
 		return "restore-" + r.Verdict.Kind, firstLine(r.Verdict.Msg), r.Verdict.Site, steps
